@@ -7,10 +7,10 @@ import GMGProofs.Lemmas.Concrete3
 /-!
 # C10 (the whole cycle inside the model) — composition of the code-level models through the control-flow IR
 
-`GMGModel/Concrete.lean` instantiates the abstract operators of `Cycle.Ops` with the code-level models (smoothers,
+`GMGModel/Concrete.lean` instantiates the abstract operators of `MGCycle.Ops` with the code-level models (smoothers,
 residual, transfers, coarse direct solver, vector kernels).  Theorems:
 * the strict association-list interpreter the driver runs computes exactly what the interpreter of the C10 theorems
-  (`Cycle.exec` over a function memory) computes;
+  (`MGCycle.exec` over a function memory) computes;
 * the capstone: on a two-level hierarchy with a Dirichlet inner boundary and elliptic data, a V-, W- or F-cycle of the
   CONCRETE model (assembled line matrices, LDLᵀ line solves, sparse LU coarse solve, bilinear transfers) started from the
   exact discrete solution returns it — C10's first clause for the code-level models, obtained by composing
@@ -19,7 +19,7 @@ residual, transfers, coarse direct solver, vector kernels).  Theorems:
 Property theorems only; helper lemmas in `GMGProofs/Lemmas/Concrete*.lean`.
 -/
 namespace C10c
-open Cycle Concrete Stencil
+open MGCycle Concrete Stencil
 
 /-! ## 1  the strict interpreter is the interpreter -/
 
